@@ -76,8 +76,10 @@ func (w *world) id(m *queue.Message) int {
 	return i
 }
 
-// deadline for "does this call return?"
-const blockWait = 150 * time.Millisecond
+// deadlines for "does this call return?": a call that is expected to return gets the long deadline
+// (robust under machine load); only a call that the scenario expects to block uses the short one
+const blockWait = 300 * time.Millisecond
+const longWait = 10 * time.Second
 const closeWait = 3 * time.Second
 
 func errName(err error) string {
@@ -111,7 +113,9 @@ func b01(b bool) int {
 }
 
 // send with the blocking API (timeout -1), in a goroutine so that a blocked call is observable
-func (w *world) opSend(i int, sync bool) string {
+func (w *world) opSend(i int, sync bool) string { return w.opSendX(i, sync, false) }
+
+func (w *world) opSendX(i int, sync bool, expectBlock bool) string {
 	m := w.objs[i]
 	t := tag{i, w.gen[i]}
 	ch := make(chan error, 1)
@@ -124,10 +128,14 @@ func (w *world) opSend(i int, sync bool) string {
 		ch <- w.req.Send(m, sync)
 	}()
 	res := ""
+	wait := longWait
+	if expectBlock {
+		wait = blockWait
+	}
 	select {
 	case err := <-ch:
 		res = errName(err)
-	case <-time.After(blockWait):
+	case <-time.After(wait):
 		res = "blocked"
 		w.blocked[t] = ch
 	}
@@ -174,7 +182,7 @@ func (w *world) opRecv(high bool) (tag, bool) {
 		w.held[p.t] = m
 		out.Op(fmt.Sprintf("recv %d", b01(high)), p.t.String())
 		return p.t, true
-	case <-time.After(blockWait):
+	case <-time.After(longWait):
 		out.Op(fmt.Sprintf("recv %d", b01(high)), "not-enabled")
 		return tag{}, false
 	}
@@ -190,7 +198,7 @@ func (w *world) opReply(t tag) {
 	res := "ok"
 	select {
 	case <-done:
-	case <-time.After(blockWait):
+	case <-time.After(longWait):
 		res = "not-enabled" // buffer full: the responder blocks
 	}
 	out.Op("reply "+t.String(), res)
@@ -427,7 +435,7 @@ func scenarioFull(sync bool) {
 	var bl []tag
 	for k := 0; k < 2; k++ {
 		i := w.opNew()
-		if w.opSend(i, sync) == "blocked" {
+		if w.opSendX(i, sync, true) == "blocked" {
 			bl = append(bl, tag{i, w.gen[i]})
 		}
 	}
